@@ -125,4 +125,92 @@ def combine (op : CombOp) (sc : Rat) (a b : List Row) : List Row :=
       | .add => p.y + q.y | .sub => p.y - q.y | .mul => p.y * q.y | .dist => absRat (p.y - q.y)
     { p with y := v * sc }
 
+/-! ## table_extrapolate.pl -/
+
+inductive ExFun | constant | linear | quadratic | sasha | periodic | exponential
+  deriving Repr, BEq, DecidableEq
+
+/-- where the script divides by zero -/
+def exDefined (fn : ExFun) (curv y0 m : Rat) : Bool :=
+  match fn with
+  | .quadratic => curv != 0
+  | .sasha => y0 != 0 && m != 0
+  | .exponential => y0 != 0
+  | _ => true
+
+/-- the extrapolating function through the anchor `(x0, y0)` with slope `m`; `curv` is the `--curvature` of the quadratic form;
+    `ew` stands for the exponential function (the driver supplies a rational approximation; the theorems hold for every `ew`) -/
+def exVal (fn : ExFun) (curv x0 y0 m x : Rat) (ew : Rat → Rat) : Rat :=
+  match fn with
+  | .constant => y0
+  | .linear | .periodic => m * (x - x0) + y0
+  | .quadratic =>
+      let a := m / 2 / curv - x0
+      let b := y0 - m * m / 4 / curv
+      curv * (x + a) * (x + a) + b
+  | .sasha =>
+      let a := m * m / (4 * y0)
+      let b := x0 - 2 * y0 / m
+      a * (x - b) * (x - b)
+  | .exponential => y0 * ew (m * (x - x0) / y0)
+
+structure ExOpts where
+  fn : ExFun
+  avg : Nat
+  curv : Rat
+  left : Bool
+  right : Bool
+  flagUpdate : Bool
+
+/-- rows whose index satisfies `p` are replaced by `g row` -/
+def fillWhere (p : Nat → Bool) (g : Row → Row) (rows : List Row) : List Row :=
+  rows.zipIdx.map fun (r, i) => if p i then g r else r
+
+/-- an extrapolated row: same abscissa, the value of the extrapolating function, flag `i` unless `--no-flagupdate` -/
+def exRow (o : ExOpts) (x0 y0 m : Rat) (ew : Rat → Rat) (r : Row) : Row :=
+  { r with y := exVal o.fn o.curv x0 y0 m r.x ew, flag := if o.flagUpdate then 'i' else r.flag }
+
+def firstIn (rows : List Row) : Nat := (rows.findIdx? (·.flag == 'i')).getD rows.length
+/-- `for ($last=$#r; $last>0; $last--) { last if flag eq "i" }`: stops at index 0 whatever its flag -/
+def lastIn (rows : List Row) : Nat :=
+  ((List.range rows.length).reverse.find? fun i => i == 0 || (rows[i]?.map (·.flag)) == some 'i').getD 0
+
+/-- left part: gradient from the first in-range point and the point `avg` further on; everything before it is replaced -/
+def exLeft (o : ExOpts) (ew : Rat → Rat) (rows : List Row) : Option (List Row) :=
+  let f := firstIn rows
+  match rows[f]?, rows[f + o.avg]? with
+  | some r0, some r1 =>
+    if o.fn != .constant && r1.x == r0.x then none else
+    let m := if o.fn == .constant then 0 else (r1.y - r0.y) / (r1.x - r0.x)
+    if !exDefined o.fn o.curv r0.y m then none else
+    some (fillWhere (fun i => decide (i < f)) (exRow o r0.x r0.y m ew) rows)
+  | _, _ => none
+
+def exRight (o : ExOpts) (ew : Rat → Rat) (rows : List Row) : Option (List Row) :=
+  let l := lastIn rows
+  let n := rows.length
+  match rows[l]? with
+  | none => none
+  | some r0 =>
+    let mOpt : Option Rat :=
+      if o.fn == .constant then some 0
+      else if o.fn == .periodic then
+        (if l + 1 == n then some 0 else
+          match rows[0]?, rows[n - 1]? with
+          | some a, some z => if z.x == r0.x then none else some ((a.y - r0.y) / (z.x - r0.x))
+          | _, _ => none)
+      else if l < o.avg then none
+      else match rows[l - o.avg]? with
+        | some r1 => if r0.x == r1.x then none else some ((r0.y - r1.y) / (r0.x - r1.x))
+        | none => none
+    match mOpt with
+    | none => none
+    | some m =>
+      if !exDefined o.fn o.curv r0.y m then none else
+      some (fillWhere (fun i => decide (i > l)) (exRow o r0.x r0.y m ew) rows)
+
+def extrapolate (o : ExOpts) (ew : Rat → Rat) (rows : List Row) : Option (List Row) := do
+  let a ← if o.left then exLeft o ew rows else some rows
+  if o.right then exRight o ew a else some a
+
 end Votca.C19
